@@ -8,6 +8,21 @@ NOTE: We aim to make the computation of differential operaotrs more efficient
 import torch
 
 
+def _derivative(output, variable):
+    """Gradient of output.sum() with respect to variable. If the output does not
+    depend on the variable (e.g. constant or linear functions, after a first
+    differentiation), the derivative is zero instead of an autograd error.
+    """
+    if not output.requires_grad:
+        return torch.zeros_like(variable)
+    derivative = torch.autograd.grad(
+        output.sum(), variable, create_graph=True, allow_unused=True
+    )[0]
+    if derivative is None:
+        return torch.zeros_like(variable)
+    return derivative
+
+
 def laplacian(model_out, *derivative_variable, grad=None):
     """Computes the laplacian of a network with respect to the given variable
 
@@ -31,15 +46,13 @@ def laplacian(model_out, *derivative_variable, grad=None):
     laplacian = torch.zeros((*model_out.shape[:-1], 1), device=model_out.device)
     for vari in derivative_variable:
         if grad is None or len(derivative_variable) > 1:
-            grad = torch.autograd.grad(model_out.sum(), vari, create_graph=True)[0]
+            grad = _derivative(model_out, vari)
         # We have to check if the model is linear w.r.t. the variable, or else we get an err
         # when we compute the second derivative. If it is linear we can just return zeros
         if grad.grad_fn is None:
             continue
         for i in range(vari.shape[-1]):
-            D2u = torch.autograd.grad(
-                grad.narrow(-1, i, 1).sum(), vari, create_graph=True
-            )[0]
+            D2u = _derivative(grad.narrow(-1, i, 1), vari)
             laplacian += D2u.narrow(-1, i, 1)
     return laplacian
 
@@ -61,7 +74,7 @@ def grad(model_out, *derivative_variable):
     """
     grad = []
     for vari in derivative_variable:
-        new_grad = torch.autograd.grad(model_out.sum(), vari, create_graph=True)[0]
+        new_grad = _derivative(model_out, vari)
         grad.append(new_grad)
     return torch.column_stack(grad)
 
@@ -157,9 +170,7 @@ def div(model_out, *derivative_variable):
     var_dim = 0
     for vari in derivative_variable:
         for i in range(vari.shape[-1]):
-            Du = torch.autograd.grad(
-                model_out.narrow(-1, var_dim + i, 1).sum(), vari, create_graph=True
-            )[0]
+            Du = _derivative(model_out.narrow(-1, var_dim + i, 1), vari)
             divergence = divergence + Du.narrow(-1, i, 1)
         var_dim += i + 1
     return divergence
@@ -250,9 +261,7 @@ def jac(model_out, *derivative_variable):
     for i in range(model_out.shape[1]):
         Du_i = []
         for vari in derivative_variable:
-            Du_i.append(
-                torch.autograd.grad(model_out[:, i].sum(), vari, create_graph=True)[0]
-            )
+            Du_i.append(_derivative(model_out[:, i], vari))
         Du_rows.append(torch.cat(Du_i, dim=1))
     Du = torch.stack(Du_rows, dim=1)
     return Du
@@ -313,7 +322,7 @@ def partial(model_out, *derivative_variables):
     for inp in derivative_variables:
         if du.grad_fn is None:
             return torch.zeros_like(inp)
-        du = torch.autograd.grad(du.sum(), inp, create_graph=True)[0]
+        du = _derivative(du, inp)
     return du
 
 
